@@ -30,7 +30,7 @@ def wire_request(req):
     ["err"] = the reader raises HTTPInputError at this point."""
     ver = req["ver"]
     method = req["method"]
-    lines = ["%s /p HTTP/%s" % (method, ver), "Host: h"]
+    lines = ["%s %s HTTP/%s" % (method, req.get("path", "/p"), ver), "Host: h"]
     if req.get("conn") is not None:
         lines.append("Connection: " + req["conn"])
     body = req["body"]
@@ -259,6 +259,92 @@ def make_callback(ctx):
     return callback
 
 
+def app_path(script):
+    """URL of the generated RequestHandler that behaves like `script` (kind "app")"""
+    streaming = script["h"] != "sync" or script["d"] != "sync" or not script.get("actFin")
+    return "/%s/%s/%s/%s/%s" % ("s" if streaming else "n", script["h"], script["d"], script["f"], script["resp"])
+
+
+def make_app(ctx, case):
+    """a real tornado.web.Application; the handler class is chosen by the URL:
+    /n/... = ordinary RequestHandler (body buffered, handler created at finish),
+    /s/... = @stream_request_body handler (created at headers_received; prepare() = headers script)."""
+    from tornado.web import Application, RequestHandler, stream_request_body
+    from tornado.concurrent import Future
+
+    def do_respond(h):
+        kind = h.sc[3]
+        ctx.log.append(["respond", h.idx])
+        try:
+            if kind == "cl":
+                h.write("ok")
+            elif kind == "stream":
+                h.write("o")
+                h.flush()
+                h.write("k")
+            elif kind == "s204":
+                h.set_status(204)
+            elif kind == "s304":
+                h.set_status(304)
+            h.finish()
+        except Exception as e:
+            ctx.log.append(["respond-exc", h.idx, type(e).__name__])
+
+    class Base(RequestHandler):
+        def initialize(self):
+            self.idx = ctx.n - 1
+            self.sc = self.request.path.split("/")[2:]      # h, d, f, resp
+            self.responded = False
+            self.later = Future()
+            ctx.active = self
+            conn = self.request.connection
+            conn.set_close_callback(lambda: (ctx.log.append(["cc", self.idx]), self.on_connection_close()))
+
+        def respond(self):
+            if self.responded:
+                return False
+            self.responded = True
+            do_respond(self)
+            if not self.later.done():
+                self.later.set_result(None)
+            return True
+
+        def compute_etag(self):
+            return None
+
+        async def _method(self):
+            if self.sc[2] == "now":
+                self.respond()
+            else:
+                await self.later
+
+        get = post = put = head = _method
+
+    @stream_request_body
+    class Streaming(Base):
+        async def prepare(self):
+            h = self.sc[0]
+            if h == "async":
+                f = Future()
+                ctx.pendH = (self.idx, f)
+                await f
+            elif h == "early":
+                self.respond()
+            elif h == "detach":
+                self.responded = True
+                self.detach()
+                ctx.log.append(["detach", self.idx])
+
+        def data_received(self, chunk):
+            if self.sc[1] == "async":
+                f = Future()
+                ctx.pendD = (self.idx, f)
+                return f
+            return None
+
+    return Application([(r"/n/.*", Base), (r"/s/.*", Streaming)])
+
+
 def make_recording_server(ctx, inner, **kw):
     from tornado import httputil
     from tornado.httpserver import HTTPServer
@@ -401,7 +487,7 @@ def _run(case, lp, app_factory):
     elif case["kind"] == "cb":
         inner = make_callback(ctx)
     else:
-        inner = app_factory(ctx, case)
+        inner = make_app(ctx, case)
     server = make_recording_server(ctx, inner, **kw)
     stream = CoalescingStream(lp.io_loop)
     wire = wire_all(case)
